@@ -5,14 +5,14 @@ CONSTANTS
   Expiry = 1
   FarmIds = {1, 2}
   PosIds = {1, 2}
-  MaxConc = 1
+  MaxConc = 2
   FeeAmt = 1
-  FeeDenom = "fee"
+  FeeDenom = "same"
   RewardDenoms = {"rw", "lp"}
   Amts = {1, 3}
   Durs = {1, 2}
   BasePenalty = 50
-  MaxOps = 5
+  MaxOps = 4
 SPECIFICATION Spec
 VIEW View
 INVARIANT C05_FarmBacked
